@@ -646,7 +646,7 @@ class AttrSpec:
 
     def __hash__(self) -> int:
         """Instance is immutable and hashable."""
-        return hash((self.__class__, self.__value))
+        return hash((AttrSpec, self.__value))
 
     @property
     def _value(self) -> int:
